@@ -52,10 +52,21 @@ fn random_steps(rng: &mut Rng, max: u64) -> Vec<Step> {
         .collect()
 }
 
+thread_local! {
+    /// blocks that, by the API call that closed them, must be wired to their successors with a
+    /// FORWARD connection (`.replication(..)`, `.route()`): recorded while the job is built, on
+    /// the building thread, independently of the scheduler's own flag
+    static EXPECT_FWD: std::cell::RefCell<Vec<u64>> = std::cell::RefCell::new(vec![]);
+}
+fn expect_forward(s: &DynStream<i64>) {
+    let id = renoir::verif::block_id(s);
+    EXPECT_FWD.with(|v| v.borrow_mut().push(id as u64));
+}
+
 fn apply(mut s: DynStream<i64>, steps: &[Step]) -> DynStream<i64> {
     for st in steps {
         s = match st {
-            Step::Repl(r) => erase(s.replication(*r)),
+            Step::Repl(r) => { expect_forward(&s); erase(s.replication(*r)) }
             Step::Shuffle => erase(s.shuffle()),
             Step::GroupBySum => erase(s.group_by_sum(|x: &i64| x % 3, |x: i64| x).drop_key()),
             Step::Broadcast => erase(s.broadcast()),
@@ -112,6 +123,7 @@ fn build(env: &StreamContext, plan: &Plan) {
             apply(erase(st), &plan.post).for_each(|_| {});
         }
         5 => {
+            expect_forward(&s);
             let mut routes = s
                 .route()
                 .add_route(|x: &i64| x % 2 == 0)
@@ -192,6 +204,7 @@ pub fn generate(opts: &Opts, sink: &mut CaseSink) {
         let local = rng.chance(1, 4);
         let cores: Vec<u64> = if local { vec![rng.range(1, 8) as u64] } else { (0..rng.range(1, 4)).map(|_| *rng.pick(&[1u64, 1, 2, 3, 4, 6])).collect() };
         let mut dumps = vec![];
+        let mut expect_fwd: Vec<u64> = vec![];
         let mut first: Option<GraphDump> = None;
         let hosts = if local { 1 } else { cores.len() as u64 };
         let mut failed = false;
@@ -200,11 +213,14 @@ pub fn generate(opts: &Opts, sink: &mut CaseSink) {
             let p2 = plan.clone();
             let r = crate::script::catch(move || {
                 let env = StreamContext::new(cfg);
+                EXPECT_FWD.with(|v| v.borrow_mut().clear());
                 build(&env, &p2);
-                env.verif_execution_graph()
+                let fwd = EXPECT_FWD.with(|v| v.borrow().clone());
+                (env.verif_execution_graph(), fwd)
             });
             match r {
-                Ok(d) => {
+                Ok((d, fwd)) => {
+                    expect_fwd = fwd;
                     dumps.push(dump_coq(h, &d, base_port));
                     if first.is_none() {
                         first = Some(d);
@@ -234,7 +250,8 @@ pub fn generate(opts: &Opts, sink: &mut CaseSink) {
         // requirements gets their intersection)
         let table = [Replication::One, Replication::Host, Replication::Unlimited, Replication::new_limited(1), Replication::new_limited(3), Replication::new_limited(rng.range(1, 9) as u64)];
         let inter: Vec<String> = table.iter().flat_map(|a| table.iter().map(move |b| (*a, *b))).map(|(a, b)| format!("({}, {}, {})", repl_coq(&a), repl_coq(&b), repl_coq(&a.intersect(b)))).collect();
-        let term = format!("(Build_case {} [{}] [{}] [{}] [{}])", dep, blocks.join("; "), edges.join("; "), dumps.join("; "), inter.join("; "));
+        let fwd_s: Vec<String> = expect_fwd.iter().map(|b| format!("{}%nat", b)).collect();
+        let term = format!("(Build_case {} [{}] [{}] [{}] [{}] [{}])", dep, blocks.join("; "), edges.join("; "), dumps.join("; "), inter.join("; "), fwd_s.join("; "));
         sink.count(&format!("shape_{}", plan.shape));
         sink.count(if local { "local" } else { "remote" });
         sink.count(&format!("hosts_{}", hosts));
@@ -246,4 +263,4 @@ pub fn generate(opts: &Opts, sink: &mut CaseSink) {
     }
 }
 
-pub const RULE: &str = "random job graphs built with the public API (linear, split+merge/join/zip diamonds, replay and iterate loops, route, multi-sink; replication changes One/Host/Limited(1..7)/Unlimited, shuffles, group_by, broadcast, folds) on local(1..8) or 1..4 hosts with heterogeneous core counts incl. 1-core hosts; every host id derives its graph separately. Non-trivial: >=3 blocks and >=4 links; distinct = distinct case terms";
+pub const RULE: &str = "random job graphs built with the public API (linear, split+merge/join/zip diamonds, replay and iterate loops, route, multi-sink; replication changes One/Host/Limited(1..7)/Unlimited, shuffles, group_by, broadcast, folds) on local(1..8) or 1..4 hosts with heterogeneous core counts incl. 1-core hosts; every host id derives its graph separately; the blocks closed by `.replication(..)` or `.route()` are recorded while the job is built and must be wired forward. Non-trivial: >=3 blocks and >=4 links; distinct = distinct case terms";
